@@ -217,6 +217,9 @@ pub fn parse_sctp(p: &[u8]) -> PacketView {
 pub enum FaultKind {
     /// every transmission of the addressed DATA chunk is lost (content-addressed, persistent)
     DropAll,
+    /// from the first transmission of the addressed chunk on, every packet of that direction that carries
+    /// DATA is lost, until a retransmission of that chunk arrives (which passes and ends the outage)
+    Outage,
     Drop,
     Dup,
     Hold,
@@ -258,6 +261,7 @@ pub fn fault_from_json(v: &Value) -> Fault {
     let kind = match v["kind"].as_str().unwrap_or("") {
         "drop" => FaultKind::Drop,
         "dropall" => FaultKind::DropAll,
+        "outage" => FaultKind::Outage,
         "dup" => FaultKind::Dup,
         "hold" => FaultKind::Hold,
         "duplate" => FaultKind::DupLate,
@@ -301,6 +305,7 @@ struct ProxyState {
     cnt: HashMap<(char, u8), u32>,
     cnt_tsn: HashMap<(char, u32), u32>, // transmissions seen per (direction, relative TSN)
     itsn: HashMap<char, u32>,           // initial TSN announced by each side (INIT / INIT-ACK)
+    outage: HashMap<char, (u32, usize)>, // direction -> (relative TSN that ends it when retransmitted, fault index)
     held: Vec<Held>,
     next_id: u64,
     faults_applied: u32,
@@ -527,7 +532,19 @@ impl Proxy {
                 "chunks": pv.chunks.iter().map(|c| c.to_json()).collect::<Vec<_>>(),
             });
             let mut hit = None;
+            // a running outage: DATA is lost unless this packet retransmits the chunk the outage started with
+            let mut outage_drop = None;
+            if let Some((t, idx)) = st.outage.get(&dir).copied() {
+                if rels.iter().any(|(x, n)| *x == t && *n >= 2) {
+                    st.outage.remove(&dir);
+                } else if !rels.is_empty() {
+                    outage_drop = Some(idx);
+                }
+            }
             for (i, f) in st.faults.iter().enumerate() {
+                if outage_drop.is_some() {
+                    break;
+                }
                 let persistent = f.kind == FaultKind::DropAll
                     && f.dir == dir
                     && f.tsn_rel.map(|r| rels.iter().any(|(x, _)| *x == r)).unwrap_or(false);
@@ -539,16 +556,22 @@ impl Proxy {
                 }
             }
             let mut action = "fwd";
-            if let Some(i) = hit {
+            if let Some(idx) = outage_drop {
+                action = "drop";
+                hit = Some(idx);
+            } else if let Some(i) = hit {
                 st.faults[i].used = true;
                 st.faults_applied += 1;
                 let f = st.faults[i].clone();
                 action = match f.kind {
-                    FaultKind::Drop | FaultKind::DropAll => "drop",
+                    FaultKind::Drop | FaultKind::DropAll | FaultKind::Outage => "drop",
                     FaultKind::Dup => "dup",
                     FaultKind::Hold => "hold",
                     FaultKind::DupLate => "duplate",
                 };
+                if f.kind == FaultKind::Outage {
+                    st.outage.insert(dir, (f.tsn_rel.unwrap_or(0), i));
+                }
                 if matches!(f.kind, FaultKind::Hold | FaultKind::DupLate) {
                     st.held.push(Held { fault_idx: i, datagram: datagram.clone(), view: view.clone(), dir, after: f.after });
                 }
@@ -856,6 +879,7 @@ pub async fn build_pair(cfg: &StackCfg, chans: &[ChanSpec], faults: Vec<Fault>) 
             cnt: HashMap::new(),
             cnt_tsn: HashMap::new(),
             itsn: HashMap::new(),
+            outage: HashMap::new(),
             held: Vec::new(),
             next_id: 0,
             faults_applied: 0,
